@@ -653,12 +653,16 @@ class Circuit(Function):
                     gates_for_block.add(new_label)
             else:
                 if right_connect:
-                    self._gates[old_to_new_names[cur_gate.label]] = gate.Gate(
-                        label=old_to_new_names[cur_gate.label],
+                    replaced_label = old_to_new_names[cur_gate.label]
+                    replaced_operands = tuple(
+                        old_to_new_names[operand] for operand in cur_gate.operands
+                    )
+                    for operand in replaced_operands:
+                        self._add_user(operand, replaced_label)
+                    self._gates[replaced_label] = gate.Gate(
+                        label=replaced_label,
                         gate_type=cur_gate.gate_type,
-                        operands=tuple(
-                            old_to_new_names[operand] for operand in cur_gate.operands
-                        ),
+                        operands=replaced_operands,
                     )
 
         self.set_outputs(
